@@ -797,6 +797,106 @@ type ptrNode struct{ c *NodeConf }
 
 func (n *ptrNode) Info() NodeConf { return *n.c }
 
+// ---- pass 5: a section that holds nothing but the plugin's type ----
+//
+// `gun: {type: x}` is a complete section: the component is configured from its registered
+// defaults, and those are validated like any other configuration — a default that lacks a
+// required value must be reported, not handed to the constructor.
+
+type VConf struct {
+	Req string `config:"req" validate:"required"`
+	N   int    `config:"n" validate:"min=1"`
+}
+type VComp interface{ V() VConf }
+type vcomp struct{ c VConf }
+
+func (v *vcomp) V() VConf { return v.c }
+
+type vholder struct {
+	C  VComp                 `config:"c"`
+	F  func() (VComp, error) `config:"f"`
+	F2 func() VComp          `config:"f2"`
+}
+
+func typeOnlySections(res *vkit.Result) {
+	vType := plugin.PtrType((*VComp)(nil))
+	ctors := map[string]any{
+		"value":   func(c VConf) VComp { return &vcomp{c} },
+		"pointer": func(c *VConf) (VComp, error) { return &vcomp{*c}, nil },
+		"factory": func(c VConf) func() (VComp, error) { return func() (VComp, error) { return &vcomp{c}, nil } },
+	}
+	for shape, ctor := range ctors {
+		for _, defaults := range []string{"incomplete", "complete", "none"} {
+			name := "v-" + shape + "-" + defaults
+			switch {
+			case defaults == "none":
+				plugin.Register(vType, name, ctor)
+			case shape == "pointer":
+				plugin.Register(vType, name, ctor, func() *VConf {
+					if defaults == "complete" {
+						return &VConf{Req: "d", N: 1}
+					}
+					return &VConf{N: 1}
+				})
+			default:
+				plugin.Register(vType, name, ctor, func() VConf {
+					if defaults == "complete" {
+						return VConf{Req: "d", N: 1}
+					}
+					return VConf{N: 1}
+				})
+			}
+			for _, section := range []string{"type-only", "completed", "invalid-value"} {
+				user := map[string]any{"type": name}
+				switch section {
+				case "completed":
+					user["req"], user["n"] = "u", 2
+				case "invalid-value":
+					user["req"], user["n"] = "u", 0
+				}
+				wantOK := section == "completed" || (section == "type-only" && defaults == "complete")
+				for _, form := range []string{"c", "f", "f2"} {
+					c := map[string]any{"constructor": shape, "defaults": defaults, "section": section, "form": form}
+					var h vholder
+					var got VComp
+					err := config.Decode(map[string]any{form: user}, &h)
+					if err == nil {
+						switch form {
+						case "c":
+							got = h.C
+						case "f":
+							got, err = h.F()
+						case "f2":
+							if pv, panicked := callSafely(func() { got = h.F2() }); panicked {
+								err = fmt.Errorf("panic: %v", pv)
+							}
+						}
+					}
+					key := "C18/type-only/" + shape + "/" + defaults + "-defaults/" + section
+					switch {
+					case wantOK && err != nil:
+						res.Violate(key+"/rejected", fmt.Sprintf("a valid section was rejected: %v", err), c)
+					case wantOK && got == nil:
+						res.Violate(key+"/nil", "no component and no error", c)
+					case !wantOK && err == nil:
+						res.Violate(key+"/invalid-config-accepted", fmt.Sprintf("component created with the invalid configuration %+v (req is required, n ≥ 1)", got.V()), c)
+					case wantOK:
+						want := VConf{Req: "u", N: 2}
+						if section == "type-only" {
+							want = VConf{Req: "d", N: 1}
+						}
+						if got.V() != want {
+							res.Violate(key+"/config", fmt.Sprintf("configured with %+v, want %+v", got.V(), want), c)
+						}
+					}
+					res.Eval(vkit.JSON(c), true)
+					res.Count("form_type-only", 1)
+				}
+			}
+		}
+	}
+}
+
 func main() {
 	vkit.Fs() // registers the config hooks (pluginconfig.AddHooks via core import)
 	res := vkit.NewResult("exhaustive cross product of constructor shapes (component|factory × no config|struct|*struct × error result × inner error result / impl-typed result × default-config func) × requested form (New, factory with error, factory without error) × outcome (ok, constructor error, inner factory error, config error) × 1–5 factory calls with mutation of each product's config; plus every config-taking shape through the `type:` config hooks; plus plugins nested three deep in plugins of the same registered name and two overlapping creations (one held in the middle of decoding by a blocking field) for value/pointer/factory shapes; plus one decoded factory called from 16 goroutines at once (every product must come from its own freshly created default); distinct = distinct (shape, form, outcome, calls); all are non-trivial")
@@ -824,6 +924,7 @@ func main() {
 	hookPass(res)
 	nestedAndOverlap(res)
 	sameFactoryConcurrently(res, vkit.N(60, 1500))
+	typeOnlySections(res)
 	res.Set("exhaustive", true)
 	res.Set("shapes", len(shapes()))
 	res.Sample(Case{Shape: shapes()[5], Form: "factory-noerr", Outcome: "config-error", Calls: 2})
